@@ -1039,3 +1039,69 @@ Section Canonical.
       + now apply IH.
   Qed.
 End Canonical.
+
+(* ------------------------------------------------------------------ *)
+(* explicit node ids: whatever from_dict accepts registers pairwise different,
+   non-zero node ids (the keys of Tree._node_by_id) *)
+Section NodeIds.
+  Variables (dd : dmapper) (calc : info -> res did).
+
+  Definition nids_fresh (l : list Z) (used : list Z) : Prop :=
+    NoDup l /\ forall z, In z l -> z <> 0%Z /\ ~ In z used.
+
+  Definition nid_goal (p : pt) : Prop :=
+    forall seen used t, fd_item dd calc p seen used = inl t -> nids_fresh (nids p) used.
+
+  Lemma fd_loop_nids : forall l, Forall nid_goal l ->
+    forall seen used f, fd_loop dd calc l seen used = inl f -> nids_fresh (flat_map nids l) used.
+  Proof.
+    induction l as [|p ps IH]; intros HP seen used f E.
+    - split; [constructor|intros z []].
+    - inversion HP as [|p0 ps0 Pp Pps]; subst. cbn [fd_loop] in E.
+      destruct (fd_item dd calc p seen used) as [t|e] eqn:E1; [|discriminate].
+      destruct (fd_loop dd calc ps (seen ++ [rdid t]) (used ++ nids p)) as [ts|e] eqn:E2; [|discriminate].
+      destruct (Pp _ _ _ E1) as (N1 & F1). destruct (IH Pps _ _ _ E2) as (N2 & F2).
+      cbn [flat_map]. split.
+      + apply NoDup_app_intro; [exact N1|exact N2|].
+        intros z Hz1 Hz2. destruct (F2 z Hz2) as (_ & Hn). apply Hn. apply in_or_app. now right.
+      + intros z Hz. apply in_app_or in Hz as [Hz|Hz]; [exact (F1 z Hz)|].
+        destruct (F2 z Hz) as (Z0 & Hn). split; [exact Z0|]. intros Hu. apply Hn. apply in_or_app. now left.
+  Qed.
+
+  Lemma nid_check_some o used z : nid_check o used = inl (Some z) ->
+    nid_of o = inl (Some z) /\ z <> 0%Z /\ ~ In z used.
+  Proof.
+    unfold nid_check. destruct (nid_of o) as [[z'|]|e]; try discriminate.
+    destruct (Z.eqb z' 0) eqn:E0; [discriminate|]. cbn [orb].
+    destruct (existsb (Z.eqb z') used) eqn:Ex; [discriminate|].
+    intros H. injection H as <-. refine (conj eq_refl (conj _ _)).
+    - now apply Z.eqb_neq.
+    - intros Hin. assert (existsb (Z.eqb z') used = true) as Ht; [|rewrite Ht in Ex; discriminate].
+      apply existsb_exists. exists z'. split; [exact Hin|apply Z.eqb_refl].
+  Qed.
+
+  Lemma fd_item_nids : forall p, nid_goal p.
+  Proof.
+    induction p as [|d kids IH] using pt_ind'; intros seen used t E.
+    - discriminate.
+    - apply fd_item_PT_ok in E as (i0 & dv & nid & ch & E1 & E2 & E3 & Ex & El & ->).
+      destruct (fd_loop_nids kids IH _ _ _ El) as (Nk & Fk). cbn [nids].
+      destruct nid as [z|].
+      + destruct (nid_check_some _ _ _ E3) as (En & Z0 & Zu). rewrite En. cbn [app]. split.
+        * constructor; [|exact Nk]. intros Hin. destruct (Fk z Hin) as (_ & Hn). apply Hn.
+          apply in_or_app. right. now left.
+        * intros y [<-|Hy]; [split; assumption|]. destruct (Fk y Hy) as (Y0 & Hn). split; [exact Y0|].
+          intros Hu. apply Hn. apply in_or_app. now left.
+      + apply nid_check_of in E3. rewrite E3. cbn [app]. split; [exact Nk|].
+        intros y Hy. destruct (Fk y Hy) as (Y0 & Hn). split; [exact Y0|].
+        intros Hu. apply Hn. apply in_or_app. now left.
+  Qed.
+
+  Theorem from_dict_node_ids next obj f : from_dict dd calc next obj = inl f ->
+    NoDup (flat_map nids (map parse obj)) /\ ~ In 0%Z (flat_map nids (map parse obj)).
+  Proof.
+    unfold from_dict. destruct (fd_loop dd calc (map parse obj) [] []) as [f0|e] eqn:E; [|discriminate].
+    intros _. destruct (fd_loop_nids _ (proj2 (Forall_forall _ _) (fun p _ => fd_item_nids p)) _ _ _ E) as (N & F).
+    split; [exact N|]. intros H0. destruct (F _ H0) as (Z0 & _). now apply Z0.
+  Qed.
+End NodeIds.
